@@ -320,6 +320,27 @@ fn close_strat() -> impl Strategy<Value = CloseCase> {
 		.prop_map(|(spec, ops, closer_is_funder, resolutions, close_early)| CloseCase { spec, ops, closer_is_funder, resolutions, close_early })
 }
 
+/// One party ends with a balance at or right next to the dust limit of the closing transaction (354 sat): the acceptor
+/// starts with nothing and is paid 353 / 354 / 355 sat (+- a few msat), or pays everything but that back.
+fn close_dust_edge_strat() -> impl Strategy<Value = CloseCase> {
+	(
+		world_spec(vec![Topology::Pair]),
+		prop_oneof![3 => Just(354_000i64), 1 => Just(353_000i64), 1 => Just(355_000i64), 1 => Just(330_000i64), 1 => Just(546_000i64)],
+		prop_oneof![3 => Just(0i64), 1 => Just(1i64), 1 => Just(-1i64), 1 => Just(999i64), 1 => Just(-999i64)],
+		any::<bool>(),
+		proptest::collection::vec(op_strategy(OpWeights { deliver: 10, pump: 4, events: 4, ..OpWeights::zero() }), 0..4),
+	)
+		.prop_map(|(mut spec, sat, msat, closer_is_funder, tail)| {
+			spec.push_permille = vec![0];
+			spec.htlc_min_msat = spec.htlc_min_msat.min(1000);
+			spec.node_tweaks = vec![];
+			spec.reserve_ppm = 0;
+			let mut ops = vec![Op::Send { route: 0, amt: Amt::Abs((sat + msat).max(1) as u64) }, Op::Pump, Op::Claim { pay: 0 }, Op::Pump, Op::Pump];
+			ops.extend(tail);
+			CloseCase { spec, ops, closer_is_funder, resolutions: vec![true; 8], close_early: false }
+		})
+}
+
 fn close_oracle(c: &CloseCase, ctx: &mut Ctx) -> CaseResult {
 	use lightning::events::Event;
 	use netsim::sim::*;
@@ -499,7 +520,7 @@ fn main() {
 			thorough_cases: 40_000,
 			max_shrink: 300,
 		},
-		close_strat,
+		|| prop_oneof![5 => close_strat().boxed(), 1 => close_dust_edge_strat().boxed()],
 		close_oracle,
 	);
 	c.finish();
